@@ -407,7 +407,7 @@ def _strategy():
 
 
 def run(ctx):
-    ctx.hyp(_strategy, check_case, max_examples=ctx.pick(3000, 40000))
+    ctx.hyp(_strategy, check_case, max_examples=ctx.pick(4000, 200000))
 
 
 def replay(case):
